@@ -225,7 +225,7 @@ _add("READ DISC INFORMATION", "scsi_cdb_readdiscinformation", "ReadDiscInformati
 
 # the facade looks these commands up under the *_10 key in every set; the MMC table spells them
 # without the suffix (T10 MMC names the commands READ CAPACITY / SYNCHRONIZE CACHE): table key per set
-TABLE_KEY = {("READ CAPACITY(10)", "mmc"): "READ_CAPACITY", ("SYNCHRONIZE CACHE(10)", "mmc"): "SYNCHRONIZE_CACHE"}
+TABLE_KEY = {}  # (the MMC table now also lists the *_10 names; see known_findings C13-mmc-10-byte-names)
 
 
 # ------------------------------------------------------------------ oracle
